@@ -350,6 +350,53 @@ def seqspec_probe(ctx):
               {'kind': 'seqspec', 'data': 'unknown meta with list data'}, repr(vars(fu)))
 
 
+def unknown_meta_variants(ctx):
+    """Unknown meta messages in their less common shapes: the type= keyword of the constructor, data
+    assigned after construction (stored as given), bytes data.  copy() equals the original, copy(time=)
+    equals a fresh construction, freeze/thaw keep it equal - and frozen twins compare with == and !=."""
+    n = 0
+    for label, make in (('type-keyword', lambda: UnknownMetaMessage(0x61, b'\x01\x02', time=5, type='vendor_blob')),
+                        ('list-assigned', lambda: _assign(UnknownMetaMessage(0x60, (1, 2, 3), time=10), [4, 5, 6])),
+                        ('plain', lambda: UnknownMetaMessage(0x7E, (), time=0)),
+                        ('seqspec-list', lambda: MetaMessage('sequencer_specific', data=[1, 2], time=3)),
+                        ('seqspec-default', lambda: MetaMessage('sequencer_specific'))):
+        case = {'kind': 'unknown-variant', 'variant': label}
+        try:
+            m = make()
+            before = snap(m)
+            c = m.copy()
+            ctx.check('copy() == original, same class, new object', c == m and c is not m and type(c) is type(m) and vars(c) == vars(m),
+                      f'variant-copy:{label}', case, lambda: {'copy': repr(vars(c)), 'original': repr(vars(m))})
+            c7 = m.copy(time=7)
+            if isinstance(m, UnknownMetaMessage):
+                # a fresh construction from the message's own values (the constructor stores data as a tuple)
+                fresh = UnknownMetaMessage(m.type_byte, m.data, time=7, type=m.type)
+            else:
+                fresh = MetaMessage(m.type, data=m.data, time=7)
+            ctx.check('copy(**ov) == fresh construction', c7 == fresh and vars(c7) == vars(fresh), f'variant-copy-time:{label}', case,
+                      lambda: {'copy': repr(vars(c7)), 'fresh': repr(vars(fresh))})
+            c.time = 99
+            ctx.check('original unchanged', same(m, before), f'variant-original-changed:{label}', case, repr(vars(m)))
+            f, f2 = freeze_message(m), freeze_message(m.copy())
+            eq = (f == f2, f != f2, f == m, f.copy() == f, type(f.copy()) is type(f))
+            ctx.check('freeze gives the frozen class, equal', eq == (True, False, True, True, True), f'variant-frozen-eq:{label}', case,
+                      lambda: {'f==f2, f!=f2, f==m, f.copy()==f, same class': eq})
+            t = thaw_message(f)
+            ctx.check('thaw(freeze(m)) == m', t == m and type(t) is type(m) and vars(t) == vars(m), f'variant-thaw:{label}', case,
+                      lambda: repr(vars(t)))
+            t2 = thaw_message(m)
+            ctx.check('thaw(freeze(m)) == m', t2 == m and t2 is not m, f'variant-thaw-unfrozen:{label}', case, lambda: repr(vars(t2)))
+        except Exception as exc:
+            ctx.fail('no exception', f'variant:{label}:{type(exc).__name__}', case, f'{type(exc).__name__}: {exc}')
+        n += 1
+    return n
+
+
+def _assign(m, data):
+    m.data = data
+    return m
+
+
 def nan_cases(ctx):
     """A NaN time is a real number too; copy/freeze/thaw carry the very same value over."""
     nan = float('nan')
@@ -418,6 +465,7 @@ def run(ctx):
         seqspec_probe(ctx)
         nan_cases(ctx)
         n += 3
+        n += unknown_meta_variants(ctx)
     ctx.count('cases', n)
 
 
@@ -428,5 +476,7 @@ def replay(ctx, case):
         judge_freeze(ctx, spec, ctx.rng)
     elif case['kind'] == 'none':
         none_cases(ctx)
+    elif case['kind'] == 'unknown-variant':
+        unknown_meta_variants(ctx)
     else:
         seqspec_probe(ctx)
